@@ -180,19 +180,19 @@ Proof.
 Qed.
 
 (* ------------------------------------------------------------------ the refinement invariant *)
-Record Inv (ml : nat) (A : astate) (w : world) : Prop := mkInv {
+Record Inv (fs0 : option archive) (ml : nat) (A : astate) (w : world) : Prop := mkInv {
   inv_ml : maxlen (snd w) = ml;
   inv_len : len (snd w) = length (aP A);
   inv_mem : mem (snd w) = skipn (length (aP A) - ml) (aP A);
   inv_closed : closed (snd w) = aclosed A;
   inv_fname : fname (snd w) = opened A;
   inv_fs : match aopen A with
-           | None => fst w = None /\ aclosed A = false /\ asaved A = None
+           | None => fst w = fs0 /\ aclosed A = false /\ asaved A = None     (* previous archive untouched *)
            | Some L => exists a, fst w = Some a /\ disk_repr a (disk ml A) (asaved A) /\
                                  L <= length (aP A) /\ L <= ml
            end }.
 
-Lemma inv_init ml : Inv ml ainit (init ml).
+Lemma inv_init fs0 ml : Inv fs0 ml ainit (init fs0 ml).
 Proof. constructor; cbn; auto. Qed.
 
 (* operations that only look *)
@@ -214,8 +214,8 @@ Proof. destruct o; cbn; try discriminate; reflexivity. Qed.
 
 Ltac sel := cbn [fst snd maxlen mem len fname closed aP aopen asaved aclosed opened negb orb andb].
 
-Theorem step_inv ml A (w : world) o :
-  1 <= ml -> Inv ml A w -> op_ok o = true -> Inv ml (astep ml A o) (fst (step w o)).
+Theorem step_inv fs0 ml A (w : world) o :
+  1 <= ml -> Inv fs0 ml A w -> op_ok o = true -> Inv fs0 ml (astep ml A o) (fst (step w o)).
 Proof.
   intros Hml HI Hok.
   destruct (observer o) eqn:Hobs.
@@ -301,20 +301,20 @@ Lemma arun_app ml (ops1 ops2 : list op) A :
   arun ml A (ops1 ++ ops2) = arun ml (arun ml A ops1) ops2.
 Proof. unfold arun. apply fold_left_app. Qed.
 
-Lemma run_inv ml : forall (ops : list op) A (w : world),
-  1 <= ml -> Inv ml A w -> proper ops = true ->
-  Inv ml (arun ml A ops) (fst (run w ops)).
+Lemma run_inv fs0 ml : forall (ops : list op) A (w : world),
+  1 <= ml -> Inv fs0 ml A w -> proper ops = true ->
+  Inv fs0 ml (arun ml A ops) (fst (run w ops)).
 Proof.
   induction ops as [|o r IH]; intros A w Hml HI Hp; cbn in *; [exact HI|].
   apply andb_true_iff in Hp. destruct Hp as [H1 H2].
-  pose proof (@step_inv ml A w o Hml HI H1) as HI'.
+  pose proof (@step_inv fs0 ml A w o Hml HI H1) as HI'.
   destruct (step w o) as [w1 x] eqn:E1. cbn in HI'.
   specialize (IH _ _ Hml HI' H2).
   destruct (run w1 r) as [w2 xs]. exact IH.
 Qed.
 
-Theorem exec_inv ml (ops : list op) :
-  1 <= ml -> proper ops = true -> Inv ml (spec ml ops) (exec ml ops).
+Theorem exec_inv fs0 ml (ops : list op) :
+  1 <= ml -> proper ops = true -> Inv fs0 ml (spec ml ops) (exec fs0 ml ops).
 Proof. intros Hml Hp. apply run_inv; auto. apply inv_init. Qed.
 
 Lemma proper_app (ops1 ops2 : list op) :
@@ -339,11 +339,12 @@ Qed.
 
 (* ------------------------------------------------------------------ observers under the invariant *)
 Section Observers.
+Variable fs0 : option archive.
 Variable ml : nat.
 Variable A : astate.
 Variable w : world.
 Hypothesis Hml : 1 <= ml.
-Hypothesis HI : Inv ml A w.
+Hypothesis HI : Inv fs0 ml A w.
 Let P := aP A.
 
 (* __getitem__ after the index normalisation of base.py:1183-1184 *)
@@ -532,15 +533,15 @@ Qed.
    list is what the archive holds (window size 2, opened at 0) *)
 Lemma loaded_inv (a : archive) D sv :
   disk_repr a D sv ->
-  Inv 2 (mkA D (Some 0) sv true) (Some a, mkHist 2 (skipn (length D - 2) D) (length D) true true).
+  Inv None 2 (mkA D (Some 0) sv true) (Some a, mkHist 2 (skipn (length D - 2) D) (length D) true true).
 Proof.
   intros H. constructor; cbn; auto. exists a. split; [reflexivity|]. split; [|lia].
   unfold disk. cbn. exact H.
 Qed.
 
 (* ------------------------------------------------------------------ derived facts used by Props.v *)
-Lemma final_out ml A (w : world) :
-  1 <= ml -> Inv ml A w ->
+Lemma final_out fs0 ml A (w : world) :
+  1 <= ml -> Inv fs0 ml A w ->
   snd (step w Final) =
   if 1 <=? length (aP A) then OItem (nth_error (aP A) (length (aP A) - 1)) else OErr EIndex.
 Proof.
@@ -551,21 +552,21 @@ Proof.
   destruct (@nth_error_in_range _ (aP A) (length (aP A) - 1)) as [y Hy]; [lia|]. now rewrite Hy.
 Qed.
 
-Lemma penultimate_out ml A (w : world) :
-  2 <= ml -> Inv ml A w ->
+Lemma penultimate_out fs0 ml A (w : world) :
+  2 <= ml -> Inv fs0 ml A w ->
   snd (step w Penultimate) =
   if 2 <=? length (aP A) then OItem (nth_error (aP A) (length (aP A) - 2)) else OErr EIndex.
 Proof.
   intros Hml HI. destruct w as [fs h]. cbn [step snd].
   change (-2)%Z with (- Z.of_nat 2)%Z.
   change (mem h) with (mem (snd (fs, h))).
-  rewrite (@mem_neg_window ml A (fs, h)) by (auto; lia).
+  rewrite (@mem_neg_window fs0 ml A (fs, h)) by (auto; lia).
   destruct (Nat.leb_spec 2 (length (aP A))) as [H|H]; [|reflexivity].
   destruct (@nth_error_in_range _ (aP A) (length (aP A) - 2)) as [y Hy]; [lia|]. now rewrite Hy.
 Qed.
 
-Lemma params_out ml A (w : world) :
-  Inv ml A w ->
+Lemma params_out fs0 ml A (w : world) :
+  Inv fs0 ml A w ->
   snd (step w GetParams) =
   match aopen A with
   | None => OErr ERuntime
@@ -585,29 +586,33 @@ Lemma loaded_contents (a : archive) D sv :
   contents (Some a, mkHist 2 (skipn (length D - 2) D) (length D) true true) = (map Some D, None).
 Proof.
   intros H. pose proof (loaded_inv H) as HI. unfold contents. cbn [snd len].
-  apply (@iter_opened 2 _ _ (le_S _ _ (le_n 1)) HI); reflexivity.
+  apply (@iter_opened None 2 _ _ (le_S _ _ (le_n 1)) HI); reflexivity.
 Qed.
 
-(* what `load` finds after the process stopped once `ops1` had been carried out *)
-Lemma crash_load ml (ops1 ops2 : list op) :
+(* what is on disk after the process stopped once `ops1` had been carried out: before open() the
+   file of a previous life (if any) exactly as it was; afterwards an archive that `load` accepts and
+   that holds a prefix of what this life pushed, with this life's parameters *)
+Lemma crash_load fs0 ml (ops1 ops2 : list op) :
   1 <= ml -> proper (ops1 ++ ops2) = true ->
-  let w1 := exec ml ops1 in
-  match load_img (img_of (fst w1)) with
-  | Err e => e = EFileNotFound /\ fst w1 = None
-  | Ok h' => exists D, contents (fst w1, h') = (map Some D, None) /\ len h' = length D /\
-                       prefix D (pushed ml (ops1 ++ ops2)) /\
-                       (aclosed (spec ml ops1) = true -> D = pushed ml ops1) /\
-                       snd (step (fst w1, h') GetParams) = snd (step w1 GetParams)
+  let w1 := exec fs0 ml ops1 in
+  match aopen (spec ml ops1) with
+  | None => fst w1 = fs0
+  | Some _ =>
+      exists h' D, load_img (img_of (fst w1)) = Ok h' /\
+                   contents (fst w1, h') = (map Some D, None) /\ len h' = length D /\
+                   prefix D (pushed ml (ops1 ++ ops2)) /\
+                   (aclosed (spec ml ops1) = true -> D = pushed ml ops1) /\
+                   snd (step (fst w1, h') GetParams) = snd (step w1 GetParams)
   end.
 Proof.
   intros Hml Hp w1.
   destruct (proper_app _ _ Hp) as [Hp1 _].
-  pose proof (@exec_inv ml ops1 Hml Hp1) as HI. fold w1 in HI.
+  pose proof (@exec_inv fs0 ml ops1 Hml Hp1) as HI. fold w1 in HI.
   pose proof (inv_fs HI) as Hfs.
   destruct (aopen (spec ml ops1)) as [L|] eqn:EL.
   - destruct Hfs as (a & Ea & Hd & HL). rewrite Ea. cbn [img_of].
-    rewrite (load_repr Hd).
-    exists (disk ml (spec ml ops1)). split; [apply (loaded_contents Hd)|]. split; [reflexivity|].
+    eexists. exists (disk ml (spec ml ops1)). split; [apply (load_repr Hd)|].
+    split; [apply (loaded_contents Hd)|]. split; [reflexivity|].
     split; [|split].
     + unfold disk, pushed, spec. rewrite arun_app.
       destruct (arun_prefix ml ops2 (arun ml ainit ops1)) as [r Hr]. rewrite Hr.
@@ -617,18 +622,28 @@ Proof.
     + intros Hc. unfold disk. rewrite Hc. reflexivity.
     + rewrite (params_out HI), EL. destruct Hd as (_ & _ & _ & Hg).
       cbn [step fname negb]. rewrite Hg. destruct (asaved (spec ml ops1)); reflexivity.
-  - destruct Hfs as (Ea & _). rewrite Ea. cbn. auto.
+  - destruct Hfs as (Ea & _). exact Ea.
+Qed.
+
+(* once opened, the archive holds this life's entries and parameters and nothing else *)
+Lemma archive_of_this_life fs0 ml (ops : list op) :
+  1 <= ml -> proper ops = true -> opened (spec ml ops) = true ->
+  exists a, fst (exec fs0 ml ops) = Some a /\ disk_repr a (disk ml (spec ml ops)) (asaved (spec ml ops)).
+Proof.
+  intros Hml Hp Ho. pose proof (@exec_inv fs0 ml ops Hml Hp) as HI. pose proof (inv_fs HI) as Hfs.
+  unfold opened in Ho. destruct (aopen (spec ml ops)); [|discriminate].
+  destruct Hfs as (a & Ea & Hd & _). exists a. auto.
 Qed.
 
 (* the invariant the task names: disk ++ memory = pushed, memory within its bound *)
-Lemma disk_mem_split ml (ops : list op) :
+Lemma disk_mem_split fs0 ml (ops : list op) :
   1 <= ml -> proper ops = true -> opened (spec ml ops) = true -> aclosed (spec ml ops) = false ->
-  exists a D, fst (exec ml ops) = Some a /\ n_coords a = length D /\
+  exists a D, fst (exec fs0 ml ops) = Some a /\ n_coords a = length D /\
               (forall i, get_coords i a = nth_error D i) /\
-              D ++ mem (snd (exec ml ops)) = pushed ml ops /\
-              length (mem (snd (exec ml ops))) <= ml.
+              D ++ mem (snd (exec fs0 ml ops)) = pushed ml ops /\
+              length (mem (snd (exec fs0 ml ops))) <= ml.
 Proof.
-  intros Hml Hp Ho Hc. pose proof (@exec_inv ml ops Hml Hp) as HI.
+  intros Hml Hp Ho Hc. pose proof (@exec_inv fs0 ml ops Hml Hp) as HI.
   pose proof (inv_fs HI) as Hfs. pose proof (inv_mem HI) as Hm.
   unfold opened in Ho. destruct (aopen (spec ml ops)) as [L|] eqn:EL; [|discriminate].
   destruct Hfs as (a & Ea & (Hh & Hn & Hg & Hpp) & HL).
